@@ -139,6 +139,8 @@ where
 
         let α = [ατ, ακ, T::one()].minimum();
         let (αz, αs) = cones.step_length(&step.z, &step.s, &self.z, &self.s, settings.core(), α);
+        #[cfg(clarabel_verif)]
+        let verif_alpha_cap = α;
 
         // itself only allows for a single maximum value.
         // To enable split lengths, we need to also pass a
@@ -149,6 +151,20 @@ where
         if step_direction == StepDirection::Combined {
             α *= settings.core().max_step_fraction;
         }
+
+        #[cfg(clarabel_verif)]
+        crate::verif_hooks::trace::observe(crate::verif_hooks::trace::Event::StepLen {
+            tau: crate::verif_hooks::trace::f(self.τ),
+            kappa: crate::verif_hooks::trace::f(self.κ),
+            dtau: crate::verif_hooks::trace::f(step.τ),
+            dkappa: crate::verif_hooks::trace::f(step.κ),
+            alpha_cap: crate::verif_hooks::trace::f(verif_alpha_cap),
+            alpha_z: crate::verif_hooks::trace::f(αz),
+            alpha_s: crate::verif_hooks::trace::f(αs),
+            alpha_out: crate::verif_hooks::trace::f(α),
+            combined: step_direction == StepDirection::Combined,
+            max_step_fraction: crate::verif_hooks::trace::f(settings.core().max_step_fraction),
+        });
 
         α
     }
